@@ -140,6 +140,8 @@ pub fn run_aiter(w: &[&str]) -> String {
         macro_rules! push { ($x:expr) => {{ let x: String = $x; let stop = x.starts_with("E:"); out.push(x); if stop || out.len() >= cap { return Some(out) } }} }
         match (ad, reference) {
             ("all", _) => { while let Some(x) = it.next() { push!(f(x)) } }
+            // `allx`: carries on after elements that failed (a failed element is consumed like any other), at most 48 answers
+            ("allx", _) => { while let Some(x) = it.next() { out.push(f(x)); if out.len() >= 48 { break } } }
             ("nth", false) => { match it.nth(n) { Some(x) => push!(f(x)), None => out.push("none".into()) } while let Some(x) = it.next() { push!(f(x)) } }
             ("nth", true) => {
                 // n items are consumed and dropped whatever they are (errors included), the next one is the answer
